@@ -11,6 +11,7 @@ lin-tri <[ax,ay,bx,by,cx,cy]> <[va,vb,vc]> <[px,py]>   -> ok v | ok nan (degener
 near-uns <pts> <vals> <evalpts>                 -> ok [values of all minimisers];[…] first [nearestUnstructured values]
 bin sum|mean <s> <dims> <vals>                  -> ok [..] | err value
 bins sum|mean <ss> <dims> <vals>                per-axis factors `ss` (same order as dims, slowest first)
+binpix <ss> <dims> <vals>                       the closed-form index map `boxSums` at every coarse pixel (= bins sum)
 binw <s> <dims> <vals> <weights>                weighted mean (non-regular grids)
 bint <s> <dims> <ncomp> <vals>                  tensor field, statistic sum
 ss mean|sum <c0> <c> <q> <sep> <ns>             evaluate_supersampled of c0+Σc·x+Σq·x²
@@ -90,6 +91,14 @@ def step (st : St) : List String → St × String
       | "sum" => (st, "ok " ++ showRatList (binNDs ss dims vals))
       | "mean" => (st, "ok " ++ showRatList (binMeans ss dims vals))
       | _ => (st, "bad-op")
+    | _, _, _ => (st, "bad-op")
+  | ["binpix", ss, dims, vals] =>
+    match parseNatList? ss, parseNatList? dims, parseRatList? vals with
+    | some ss, some dims, some vals =>
+      if ss.any (· = 0) || ss.length ≠ dims.length then (st, "bad-op") else
+      if vals.length ≠ fineSizes ss dims then (st, "err value") else
+      (st, "ok " ++ showRatList ((tensorPts (dims.map List.range)).map fun c =>
+        boxSums dims ss c (fun f => vals.getD f 0)))
     | _, _, _ => (st, "bad-op")
   | ["binw", s, dims, vals, w] =>
     match parseNat? s, parseNatList? dims, parseRatList? vals, parseRatList? w with
